@@ -63,7 +63,7 @@ func (c *OCSPRevocationChecker) IsRevoked(clientCertificate *x509.Certificate, v
 			if output == nil {
 				continue
 			}
-			ocspResponse, err := c.parseOcspResponse(certCandidates, output, ocspServer)
+			ocspResponse, err := c.parseOcspResponse(certCandidates, clientCertificate, output, ocspServer)
 			if err != nil {
 				c.logger.Debug("failed to parse ocsp server response", zap.String("ocsp_server", ocspServer), zap.Error(err))
 				continue
@@ -106,20 +106,36 @@ func (c *OCSPRevocationChecker) calculateEvictionTime(response *ocsp.Response) t
 	}
 }
 
-func (c *OCSPRevocationChecker) parseOcspResponse(certCandidates []*core.CertificateChainEntry, output []byte, ocspServer string) (*ocsp.Response, error) {
-	ocspResponse, err := ocsp.ParseResponse(output, nil)
-	if err == nil {
-		return ocspResponse, nil
-	}
+// parseOcspResponse only returns a response which is signed by one of the issuer candidates, or by a responder
+// certificate which this issuer signed for OCSP signing, and which contains the status of the client certificate
+func (c *OCSPRevocationChecker) parseOcspResponse(certCandidates []*core.CertificateChainEntry, clientCertificate *x509.Certificate, output []byte, ocspServer string) (*ocsp.Response, error) {
 	for _, certCandidate := range certCandidates {
-		ocspResponse, err := ocsp.ParseResponse(output, certCandidate.Certificate)
+		ocspResponse, err := ocsp.ParseResponseForCert(output, clientCertificate, certCandidate.Certificate)
 		if err != nil {
 			c.logger.Debug("failed to parse ocsp server response", zap.String("ocsp_server", ocspServer), zap.Error(err))
+			continue
+		}
+		if ocspResponse.Certificate != nil && !isAuthorizedResponder(ocspResponse.Certificate, certCandidate.Certificate) {
+			c.logger.Debug("ocsp response is signed by a certificate which is not authorized for ocsp signing", zap.String("ocsp_server", ocspServer))
 			continue
 		}
 		return ocspResponse, nil
 	}
 	return nil, errors.New("unable to parse ocsp response with any certificate available")
+}
+
+// isAuthorizedResponder checks a responder certificate embedded into a response (its signature by the issuer
+// was already checked): it is either the issuer itself or has the extended key usage id-kp-OCSPSigning (RFC 6960 4.2.2.2)
+func isAuthorizedResponder(responder *x509.Certificate, issuer *x509.Certificate) bool {
+	if responder.Equal(issuer) {
+		return true
+	}
+	for _, usage := range responder.ExtKeyUsage {
+		if usage == x509.ExtKeyUsageOCSPSigning {
+			return true
+		}
+	}
+	return false
 }
 
 func (c *OCSPRevocationChecker) Provision(ocspConfig *config.OCSPConfig, logger *zap.Logger) error {
